@@ -11,6 +11,8 @@ fn single_bounded_ops(cap: usize, len: usize) -> Vec<BOp> {
         v.push(BOp::GetMutSet(i));
         v.push(BOp::Index(i));
         v.push(BOp::IndexMutSet(i));
+    }
+    for i in 0..cap + 6 {
         v.push(BOp::Extend(i));
     }
     for k in 0..=len + 1 {
@@ -30,7 +32,7 @@ fn single_fixed_ops(cap: usize) -> Vec<FOp> {
         v.push(FOp::SetFirst(i));
         v.push(FOp::IterLoop(i));
     }
-    for k in 0..cap + 2 {
+    for k in 0..cap + 6 {
         v.push(FOp::Extend(k));
     }
     v
@@ -50,7 +52,7 @@ pub fn bop(cap: usize) -> impl Strategy<Value = BOp> {
         1 => Just(BOp::SlicesMutSet),
         1 => (0..cap + 2).prop_map(BOp::Drain),
         1 => (0..cap + 2).prop_map(BOp::DrainNth),
-        1 => (0..cap + 2).prop_map(BOp::Extend),
+        2 => (0..2 * cap + 6).prop_map(BOp::Extend),
     ]
 }
 
@@ -67,7 +69,7 @@ pub fn fop(cap: usize) -> impl Strategy<Value = FOp> {
         1 => Just(FOp::Iter),
         1 => (0..3 * cap + 1).prop_map(FOp::IterLoop),
         1 => Just(FOp::IterMutSet),
-        1 => (0..cap + 2).prop_map(FOp::Extend),
+        2 => (0..2 * cap + 6).prop_map(FOp::Extend),
     ]
 }
 
@@ -107,7 +109,7 @@ pub fn fcase(max_cap: usize, max_ops: usize) -> impl Strategy<Value = FCase> {
 pub fn run(ctx: &mut Ctx) {
     ctx.set_rule(
         "Bounded: (capacity, start, len, storage kind, element type, operation sequence); Fixed: (length, first, storage, element type, operation sequence). \
-         Step relation: every valid (start, len) / first for capacities 1..=12 (thorough 1..=24) x every single operation with every argument up to capacity+1 \
+         extend() is driven with iterators whose size_hint is exact, a loose upper bound, or unknown. Step relation: every valid (start, len) / first for capacities 1..=12 (thorough 1..=24) x every single operation with every argument up to capacity+1 \
          (3N for Fixed's wrapping indices), over guarded &mut[T] storage and arrays; histories: proptest sequences of up to 300 (thorough 2000) operations over \
          capacities up to 64, all four storage kinds, u32 and [f32;2] elements, and for Fixed (which does not require Copy) an element type with a destructor whose every drop is recorded in a ledger; after EVERY operation the whole observable state is compared with the model. \
          Non-trivial: an operation executed from a state whose start/first is not 0. Enumerations are distinct by construction, histories de-duplicated by hash.",
